@@ -141,7 +141,7 @@ func runCase(c *rig.Ctx, cs Case, record bool, st *stats) bool {
 			switch op.Op {
 			case "sync":
 				w.SetUp(op.Up)
-				if err := w.Sync(op.Servers, op.Policies); err != nil {
+				if err := w.SyncX(op.Servers, op.Policies, op.Extra); err != nil {
 					out = &lib.OutJ{Err: "other:" + err.Error()}
 				}
 				checkWorkers = w.EnabledInSpec()
